@@ -481,6 +481,12 @@ class BBLinearityChecker(ast.NodeVisitor):
                 raise GuppyError(err)
             for place in leaf_places(var):
                 self.scope.use(place.id, use, UseKind.COPY)
+        # Like any other assignment, the definition must not shadow a borrowed argument
+        entry_place = self.func_inputs.get(Variable.Id(node.name))
+        if entry_place is not None and is_inout_var(entry_place):
+            err = BorrowShadowedError(node, entry_place)
+            err.add_sub_diagnostic(BorrowShadowedError.Rename(None))
+            raise GuppyError(err)
         self.scope.assign(Variable(node.name, node.ty, node))
 
     def _check_assign_targets(self, targets: list[ast.expr]) -> None:
